@@ -1,8 +1,54 @@
 (* C14 -- Graphs returned by the parsers are closed and consistently linked. *)
-From Fences Require Import GraphSpec GraphLinks.
+From Fences Require Import GraphSpec GraphLinks GraphOps GraphResolve.
 
 (* add_transition keeps both directions in step: every graph built with the public API records
    each parent/child link on both ends with the right child index *)
 Theorem C14_build : forall ops, consistent (build ops).
 Proof. exact build_consistent. Qed.
 Print Assumptions C14_build.
+
+(* resolve() on any graph the API can build (sub-graphs given as [extra], references with chains, sharing,
+   recursion): when it returns, the returned root is not a Reference, no Reference is reachable from it, every
+   child link is still recorded on the child's side, and every record of a node that is not a Reference is
+   truthful (only the replaced Reference nodes keep a stale record, and they are unreachable) *)
+Theorem C14_resolve : forall ops fuel root extra g' r,
+  resolve fuel (build ops) root extra = Ok (g', r) ->
+  outs_ok g' /\ ins_ok_nr g' /\
+  is_ref g' r = false /\ (forall x, reach g' r x -> is_ref g' x = false).
+Proof.
+  intros ops fuel root extra g' r H.
+  destruct (build_consistent ops) as [IO OO].
+  destruct (resolve_spec fuel (build ops) root extra g' r H OO (ins_ok_nr_of_ins_ok _ IO) (build_outs_dec ops))
+    as (A & B & _ & C & D).
+  auto.
+Qed.
+Print Assumptions C14_resolve.
+
+(* the same for any table that satisfies the link invariants (e.g. one that was resolved before) *)
+Theorem C14_resolve_general : forall fuel g root extra g' r,
+  resolve fuel g root extra = Ok (g', r) ->
+  outs_ok g -> ins_ok_nr g -> outs_dec g ->
+  outs_ok g' /\ ins_ok_nr g' /\ same_nodes g g' /\
+  is_ref g' r = false /\ (forall x, reach g' r x -> is_ref g' x = false).
+Proof. exact resolve_spec. Qed.
+Print Assumptions C14_resolve_general.
+
+(* an unknown name is reported with the documented exception *)
+Theorem C14_unknown_name : forall f g t n name,
+  kind_of g n = KRef name -> tbl_find (Some name) t = None -> deref (S f) g t n = LibErr EResolveReference.
+Proof. intros f g t n name K F. simpl. rewrite K, F. reflexivity. Qed.
+Print Assumptions C14_unknown_name.
+
+(* a truthy id that is already bound is reported with the documented exception *)
+Theorem C14_duplicate_id : forall g t n c cs m,
+  nid (getn g n) = Some (c :: cs) -> tbl_find (Some (c :: cs)) t = Some m ->
+  tbl_insert g t n = LibErr EResolveReference.
+Proof. intros g t n c cs m I F. unfold tbl_insert. rewrite I, F. reflexivity. Qed.
+Print Assumptions C14_duplicate_id.
+
+Example C14_nonvacuous :
+  let ops := [NewNode (KDec false false) None; NewNode (KRef [7]) None; NewNode (KDec true true) (Some [7]);
+              NewNode (KLeaf true) None; NewNode (KRef [7]) None;
+              AddT 0 1; AddT 2 3; AddT 2 4] in
+  exists g', resolve 20 (build ops) 0 [2] = Ok (g', 0) /\ outs_of g' 0 = [2] /\ outs_of g' 2 = [3; 2].
+Proof. eexists. split; [vm_compute; reflexivity|split; reflexivity]. Qed.
